@@ -82,7 +82,8 @@ def dump_leaf(e):
     c = scaled(complexity(e))
     if c is None:
         return None
-    return [str(e), c]
+    # amoco's `==` on constants compares values (cst(-1) == cst(0xffffffff)); otherwise renderings
+    return ["%#x" % (e.v & ((1 << e.size) - 1)) if e._is_cst else str(e), c]
 
 
 def strip(mv):
@@ -103,6 +104,29 @@ def rnd_map(r, with_vec=True):
         else:
             v = rnd_expr(r, r.choice([0, 1, 2]))
         m[l] = v
+    # memory locations through pointer registers: overlapping writes, re-writes, and (on top of an
+    # earlier merge) a pointer register that is itself a vector of bases
+    if r.random() < 0.6:
+        bases = [REGS[0], REGS[1]]
+        if r.random() < 0.25:
+            y = REGS[4]
+            m[y] = vec([REGS[0], REGS[1]])
+            bases = [y]
+        if r.random() < 0.2:
+            # write, overlapping write at another address, re-write of the first location
+            b = r.choice(bases)
+            for d in (0, 2, 0):
+                try:
+                    m[mem(b, 32, disp=d)] = rnd_expr(r, 0, 32)
+                except Exception:
+                    pass
+        for _ in range(r.choice([1, 2, 3, 3])):
+            b = r.choice(bases)
+            sz = r.choice([8, 16, 32, 32])
+            try:
+                m[mem(b, sz, disp=r.choice([0, 0, 2, 4]))] = rnd_expr(r, r.choice([0, 1]), sz)
+            except Exception:
+                pass
     if r.random() < 0.3:
         x = r.choice(REGS)
         m = m.assume([x == cst(r.choice([0, 3, 7]), 32)] + ([r.choice(REGS) > cst(0, 32)] if r.random() < 0.5 else []))
@@ -112,10 +136,15 @@ def rnd_map(r, with_vec=True):
 def concrete(r):
     st = mapper()
     vals = {}
-    for x in REGS + FLAGS:
+    for k, x in enumerate(REGS + FLAGS):
         v = r.choice([0, 1, 3, 7, 0x1000, 0x7fffffff, 0xffffffff, r.getrandbits(32)])
+        if k < 2:
+            v = 0x1000 * (k + 1) + r.choice([0, 0, 2])   # pointer registers: never aliased (the default no-aliasing assumption)
         st[x] = cst(v, 32)
         vals[x.ref] = v
+    for base in (0x1000, 0x2000):
+        for off in range(0, 16, 4):
+            st[mem(cst(base + off, 32), 32)] = cst(r.getrandbits(32), 32)
     return st, vals
 
 
@@ -130,6 +159,54 @@ def ev(st, e):
     return None
 
 
+def cands(st, e, limit=256):
+    """set of concrete values an (evaluated) expression may take in state st; None = unknown/undecided.
+    Vectors are unions, composites of vectors are products of their parts' candidates."""
+    import itertools
+    e = unwrap(e)
+    if not e._is_def:
+        return None
+    if e._is_vec:
+        out = set()
+        for x in e.l:
+            c = cands(st, x, limit)
+            if c is None:
+                return None
+            out |= c
+        return out
+    if e._is_cmp:
+        parts = []
+        for (lo, hi), p in sorted(e.parts.items()):
+            c = cands(st, p, limit)
+            if c is None:
+                return None
+            parts.append((lo, hi, c))
+        n = 1
+        for _, _, c in parts:
+            n *= len(c)
+        if n > limit:
+            return None
+        out = set()
+        for combo in itertools.product(*[sorted(c) for _, _, c in parts]):
+            v = 0
+            for (lo, hi, _), pv in zip(parts, combo):
+                v |= (pv & ((1 << (hi - lo)) - 1)) << lo
+            out.add(v)
+        return out
+    v = ev(st, e)
+    if v is None or v == "raise":
+        # maybe a composite/vector appears only after substitution
+        try:
+            x = st(e)
+        except Exception:
+            return None
+        x = unwrap(x)
+        if x is not e and (x._is_vec or x._is_cmp) :
+            return cands(st, x, limit)
+        return None
+    return {v}
+
+
 def cond_holds(st, m):
     for c in m.conds:
         try:
@@ -139,6 +216,49 @@ def cond_holds(st, m):
         if not (cc._is_cst and cc.v == 1):
             return False
     return True
+
+
+def self_check_memory(ck, r, st, which, a1, a2, loc, sub, mval, own, mv, widening, where, mm=None):
+    ck.count("merge.oracle.memory-location")
+    if own._is_top or mv._is_top:
+        return
+    wants = cands(st, own)
+    got = cands(st, mv)
+    if wants is None or got is None:
+        ck.count("merge.oracle.memory.undecided")
+        return
+    for want in sorted(wants):
+        if want not in got:
+            # classes: widening; the pointer's base register is itself written by a map
+            # (the location then moves between the two maps); the two maps write the
+            # same pointer with different sizes
+            def writes_base(mp):
+                return any((not l._is_ptr) and str(l) in str(loc.base) for l, _ in mp)
+            def size_of(mp):
+                return [v.size for l, v in mp if l._is_ptr and str(l) == str(loc)]
+            if writes_base(a1) or writes_base(a2):
+                # the pointer's base register is rewritten by one of the maps: "the same
+                # location" is then not the same address in both maps; not judged
+                ck.count("merge.oracle.memory.base-rewritten-not-judged")
+                return
+            cls = []
+            undef_near = mm is not None and any(l._is_ptr and str(l.base) == str(loc.base) and not unwrap(v)._is_def for l, v in mm)
+            if not unwrap(mval)._is_def or undef_near:
+                # merge stored `top` / a widened vector for the location, but memory hands
+                # back the untouched input instead of 'unknown'
+                cls.append("undefined-value-reads-back-as-untouched-memory")
+            else:
+                if len(set(size_of(a1) + size_of(a2))) > 1: cls.append("size-mismatch")
+                stores1 = any(l._is_ptr for l, _ in a1)
+                stores2 = any(l._is_ptr for l, _ in a2)
+                if stores1 and stores2:
+                    # merge replays the stores location by location, the first map's locations first:
+                    # overlapping stores of the two maps may be re-ordered
+                    cls.append("both-maps-store")
+                elif any(l._is_ptr and str(l) != str(loc) for mp in (a1, a2) for l, _ in mp):
+                    cls.append("one-map-stores")
+            ck.report("C19:merge:memory-not-covered:" + ("+".join(cls) or "plain"), "merge(m1,m2)[%s] = %s does not cover map %d's value %#x" % (sub, mv, which, want),
+                      "oracle", "Amoco.Merge.Props.merge_entry_covers (memory location: oracle only)", case=dict(where, loc=str(loc)), real=str(mv), expected=want)
 
 
 def main(tier):
@@ -209,6 +329,28 @@ def main(tier):
             widening, thr = r.choice(settings)
             conf.Cas.complexity = thr
             m1, m2 = rnd_map(r), rnd_map(r)
+            pat = r.random()
+            if pat < 0.15:
+                # one map with write / overlapping write elsewhere / re-write, the other registers only
+                mA, mB = mapper(), mapper()
+                b = r.choice(REGS[:2])
+                d0 = r.choice([0, 4])
+                for d in (d0, d0 + 2, d0):
+                    mA[mem(b, 32, disp=d)] = rnd_expr(r, 0, 32)
+                mB[r.choice(REGS[2:4])] = rnd_expr(r, 1)
+                m1, m2 = (mA, mB) if r.random() < 0.5 else (mB, mA)
+            elif pat < 0.30:
+                # a store through a pointer that is itself a vector of bases (as after an earlier merge)
+                mA, mB = mapper(), mapper()
+                d = r.choice([0, 2, 4, 4])
+                if r.random() < 0.7:
+                    mA[mem(r.choice(REGS[:2]), 32, disp=d)] = rnd_expr(r, 0, 32)
+                else:
+                    mA[REGS[2]] = rnd_expr(r, 1)
+                y = REGS[4]
+                mB[y] = vec([REGS[0], REGS[1]])
+                mB[mem(y, 32, disp=d)] = rnd_expr(r, 0, 32)
+                m1, m2 = (mA, mB) if r.random() < 0.5 else (mB, mA)
             try:
                 mm = merge(m1, m2, widening=widening)
             except Exception as ex:
@@ -218,10 +360,14 @@ def main(tier):
             ck.count("merge.widening=%s.thr=%s" % (widening, thr))
             where = {"m1": str(m1), "m2": str(m2), "widening": widening, "threshold": thr, "conds": [str(m1.conds), str(m2.conds)]}
             # ---- oracle: coverage under concrete states that satisfy the maps' conditions ---------------
-            a1, a2 = m1.assume(m1.conds), m2.assume(m2.conds)
+            # the maps' own values are read from the maps themselves; `assume` (which rebuilds a map by
+            # replaying its entries) is only used when there are path conditions to apply
+            a1 = m1.assume(m1.conds) if m1.conds else m1
+            a2 = m2.assume(m2.conds) if m2.conds else m2
             written = set(str(l) for l, _ in a1) | set(str(l) for l, _ in a2)
             got_locs = set(str(l) for l, _ in mm)
-            if got_locs != written:
+            regs_only = lambda S: set(x for x in S if not x.startswith("("))
+            if regs_only(got_locs) != regs_only(written):
                 ck.report("C19:merge:locations", "merge writes %s, the two maps write %s" % (sorted(got_locs), sorted(written)), "oracle",
                           "Amoco.Merge.Props.merge_keys", case=where, real=sorted(got_locs), expected=sorted(written))
             for _ in range(4):
@@ -229,9 +375,33 @@ def main(tier):
                 for which, a in ((1, a1), (2, a2)):
                     if not cond_holds(st, a):
                         continue
-                    for loc, _ in mm:
+                    for loc, mval in mm:
                         if loc._is_reg and (loc.etype & regtype.FLAGS) and not a.has(loc):
                             continue
+                        if loc._is_ptr:
+                            if not conf.Cas.noaliasing:
+                                continue
+                            # a pointer whose base is a vector of bases stands for one location per base
+                            sublocs = [mem(l, mval.size, loc.seg, loc.disp) for l in loc.base.l] if loc.base._is_vec else [mem(loc, mval.size)]
+                            if loc.base._is_vec and sum(1 for mp in (a1, a2) for l, _ in mp if l._is_ptr and l.base._is_vec) > 1:
+                                # several stores through vector-valued pointers: what each map itself holds at the
+                                # sub-locations is not well defined (the map's own read-back disagrees with its
+                                # store order); only a single such store is judged
+                                ck.count("merge.oracle.memory.several-vector-pointer-stores-not-judged")
+                                continue
+                            for sub in sublocs:
+                              try:
+                                own = unwrap(a[sub])
+                                mv = unwrap(mm[sub])
+                              except Exception:
+                                continue
+                              self_check_memory(ck, r, st, which, a1, a2, loc, sub, mval, own, mv, widening, where, mm)
+                            continue
+                        if False:
+                            try:
+                                pass
+                            except Exception:
+                                continue
                         own = unwrap(a[loc])
                         if own._is_top:
                             continue
